@@ -317,6 +317,14 @@ func GenWorld(g G, o GenOpts) *World {
 				cs.NoBlank = true
 			case 6:
 				cs.Message = "parent " + fakeOID("m4") + "\n" + strings.Repeat("long line ", g.Int(1, 300, "msglen"))
+			case 7:
+				// a message whose first line is indented (the blank separator is
+				// then followed by a space), with header look-alikes in its first
+				// paragraph and a last line without a blank
+				cs.Message = " indented subject line\nparent " + fakeOID("m5") + "\ntree " + fakeOID("m6") + "\n\n body\nnospace"
+				if len(commits) > 0 && g.Bool("indentrealparent") {
+					cs.Message = " indented subject line\nparent " + commits[g.Pick(len(commits), "indentparent")].ID + "\n\nbody\n"
+				}
 			}
 		}
 		commits = append(commits, w.Add(NewObject(KCommit, EncodeCommit(cs))))
@@ -373,6 +381,8 @@ func GenWorld(g G, o GenOpts) *World {
 				ts.NoBlank = true
 			case 3:
 				ts.Extra = append(ts.Extra, Header{"gpgsig", "-----BEGIN\nobject " + fakeOID("tg") + "\ntype tag\n-----END"})
+			case 4:
+				ts.Message = " indented first line\nobject " + fakeOID("tm3") + "\ntype blob\n\nrest\nnospace"
 			}
 		}
 		tags = append(tags, w.Add(NewObject(KTag, EncodeTag(ts))))
